@@ -81,4 +81,26 @@ def readChars (s : BStream) (count : Nat) : BStream × Option (List Byte) :=
   let (s1, bytes) := s.get count
   (s1, if s1.good then bytes else none)
 
+/-- a value of some arithmetic type travelling in some byte order -/
+structure Item where
+  t : IntTy
+  e : Endian
+  v : Int
+  deriving DecidableEq, Repr
+
+/-- several `io::write` calls (of different types and byte orders) on one stream -/
+def ioWriteAll (native : Endian) (s : BStream) : List Item → Except Fault BStream
+  | [] => pure s
+  | i :: r => do
+    let s1 ← ioWrite native i.t s i.v i.e
+    ioWriteAll native s1 r
+
+/-- several `io::read` calls on one stream: the results in order -/
+def ioReadAll (native : Endian) (s : BStream) : List (IntTy × Endian) → Except Fault (BStream × List (Option Int))
+  | [] => pure (s, [])
+  | (t, e) :: r => do
+    let (s1, x) ← ioRead native t s e
+    let (s2, xs) ← ioReadAll native s1 r
+    pure (s2, x :: xs)
+
 end Fcppt.C15
